@@ -824,7 +824,10 @@ def r_signature(clause, lib, header, tag, ln, canon, statement=True):
     role = "client" if lib.client else "server"
     descs = header["descs"]
     facts = []
-    if clause.endswith("end-of-stream") or clause == "model:truncated-end":
+    if clause.endswith("end-of-stream-cut-mid-frame"):
+        sid = 4 if header["second"] and ends_of(ln["obs"], 0) == ends_of(canon["obs"], 0) else 0
+        facts.append("last-frame=" + FRAME_CLASS[(header["second"] if sid == 4 else descs)[-1]["k"]])
+    elif clause.endswith("end-of-stream") or clause == "model:truncated-end":
         # the request stream whose end-of-stream reports differ (0, or the interleaved second stream 4)
         sid = 4 if header["second"] and ends_of(ln["obs"], 0) == ends_of(canon["obs"], 0) else 0
         facts.append("last-frame=" + FRAME_CLASS[(header["second"] if sid == 4 else descs)[-1]["k"]])
